@@ -11,3 +11,15 @@ pub proof fn lemma_bit_facts(x: u64, y: u64)
     assert(x != 0 ==> (x | y) != 0) by (bit_vector);
     assert(x != 0 ==> (y | x) != 0) by (bit_vector);
 }
+
+/// a wf non-zero number OR-ed digit-wise with anything is non-zero (wf result)
+pub proof fn lemma_or_nonzero(a: Seq<u64>, b: Seq<u64>, f: Seq<u64>)
+    requires wf(a), wf(f), a.len() > 0, forall|i: int| 0 <= i ==> dig(f, i) == dig(a, i) | dig(b, i)
+    ensures f.len() > 0, val(f) > 0
+{
+    let t = a.len() - 1;
+    lemma_bit_facts(a[t], dig(b, t));
+    assert(dig(f, t) == dig(a, t) | dig(b, t));
+    assert(dig(f, t) != 0);
+    lemma_wf_lower(f);
+}
